@@ -13,12 +13,25 @@ for p in props:
     for d in sorted(glob.glob(f"/verif/seeded/{pid}-*")):
         try: ideas.append(json.load(open(d + '/meta.json'))['change'])
         except Exception: pass
+    others = []
+    if len(sys.argv) > 2 and sys.argv[2] == '--all-ideas':
+        # from round E on: also the ideas used for the other properties (several round-D changes
+        # were repeats of an idea that an agent for another property had had before)
+        for d in sorted(glob.glob("/verif/seeded/C*-*")):
+            if os.path.basename(d).startswith(pid + '-'):
+                continue
+            try: others.append(json.load(open(d + '/meta.json'))['change'])
+            except Exception: pass
+        others = sorted(set(others))
     files = ', '.join(p['anchors']['files'])
     avoid = ''
     if ideas:
         avoid = ("Earlier exercises already used the following ideas, so do NOT use them or close variants of them "
                  "(pick a different function AND a different mechanism; if possible a part of the code that none of them touches):\n"
                  + ''.join(f'  {i+1}. "{x}"\n' for i, x in enumerate(ideas)) + "\n")
+    if others:
+        avoid += ("Exercises for OTHER properties of the same library used the following ideas; do not reuse any of them either:\n"
+                  + ''.join(f'  - "{x[:160]}"\n' for x in others) + "\n")
     text = f"""You are helping to evaluate a verification effort for the Rust library kaist-cp/circ (concurrent reference-counted pointers Rc/AtomicRc/Weak with immediate recursive reclamation on top of a modified crossbeam-style epoch-based reclamation).
 
 Your own scratch git worktree of the library is at {wt} (work ONLY there; do not read or touch /repo, /verif or any other worktree). It builds offline: use `cargo build --offline` / `cargo test --offline` inside it (no network is available). Lines such as `vpoint!(...)`, `vevent!(...)` and items under `#[cfg(feature = "circ_verif")]` are inert instrumentation (they expand to nothing unless the cargo feature `circ_verif` is enabled); leave them alone, but you may use them in your demonstration if you find them useful (see src/verif.rs: with the feature on, a test can install callbacks that are invoked before shared-memory accesses, which lets a demonstration force a particular interleaving deterministically).
